@@ -214,5 +214,50 @@ def predicate(case, stats):
 replay_predicate = predicate
 
 
+ATHERIS_RUNS = 12000  # per campaign; 4 campaigns (shards 0-3) in the thorough tier
+
+
+def atheris_campaign(ctx, stats):
+    """Thorough tier only: coverage-guided libFuzzer over the same test (vlib/c10_atheris.py)."""
+    import json
+    import os
+    import subprocess
+    import sys
+    import tempfile
+
+    out = tempfile.mktemp(prefix="c10_atheris_", suffix=".json")
+    env = dict(os.environ)
+    p = subprocess.run([sys.executable, "-W", "ignore", "-m", "vlib.c10_atheris", str(ATHERIS_RUNS),
+                        str(ctx.derived(5) % 2 ** 31 or 1), out], cwd=findings.HOME, env=env,
+                       stdout=subprocess.PIPE, stderr=subprocess.STDOUT, timeout=3 * 3600)
+    result = {}
+    if os.path.exists(out):
+        with open(out) as fh:
+            result = json.load(fh)
+        os.unlink(out)
+    if p.returncode == 77 and result.get("status") == "violation":
+        # replay through the plain predicate before reporting
+        fails = predicate(result["case"], runner.Stats())
+        unknown = runner.triage(PID, result["case"], fails, stats)
+        stats.extra["atheris"] = {"violation_execs": result.get("execs", 0)}
+        if unknown:
+            return {"case": result["case"], "failures": unknown}
+        stats.inconclusive["atheris-finding-not-reproduced"] += 1
+        return None
+    if p.returncode == 3:
+        stats.extra["atheris_skipped"] = 1
+        return None
+    tail = p.stdout.decode(errors="replace")[-300:]
+    if p.returncode != 0:
+        stats.inconclusive["atheris-exit-%d" % p.returncode] += 1
+        stats.extra["atheris_log_tail"] = {tail: 1}
+        return None
+    stats.extra["atheris_runs"] = ATHERIS_RUNS
+    return None
+
+
 def run_shard(ctx, stats):
-    return runner.hyp_run(ctx, stats, cases(), predicate, BUDGET[ctx.tier])
+    failure = runner.hyp_run(ctx, stats, cases(), predicate, BUDGET[ctx.tier])
+    if failure or ctx.quick or ctx.shard >= 4:
+        return failure
+    return atheris_campaign(ctx, stats)
